@@ -153,8 +153,10 @@ def run(tier):
     for i, (rc, out) in zip(sel, tres):
         cid, name, path, sink, rf = meta[i]
         # unzck prints the derived output name with stdio (flushed at exit) and the data with write(2)
-        tag = os.path.basename(path)[:-4].encode() + b"\n"
-        payload = out[:-len(tag)] if out.endswith(tag) else (out[len(tag):] if out.startswith(tag) else out)
+        # with -c everything on standard output is the content: nothing else may be mixed into it (the tool's name line stays
+        # in a stdio buffer whose descriptor is closed before exit; an earlier version of this check stripped such a line and so
+        # hid a seeded change that makes it appear)
+        payload = out
         oeq = rf.content is not None and payload == rf.content
         if rc < 0 or rc in (134, 139, 124):
             trace.append({"op": "Crash", "tool": "unzck", "rc": rc}); owner.append(cid)
